@@ -1,7 +1,7 @@
 SPECIFICATION SSpec
-CONSTANTS Sizes <- MCSizes9
+CONSTANTS Sizes <- MCSizes7
           Mut = "none"
 VIEW NoHist
 CONSTRAINT ShortHist
-INVARIANTS SeekAccepted SeekInside SeekUpAccepted StoredTrue
+INVARIANTS ExportSeekSel SeekUpAccepted
 CHECK_DEADLOCK FALSE
